@@ -106,7 +106,7 @@ type sim struct {
 	counts   map[string]int
 	trace    []string
 	apiLease bool
-	dead     map[int]bool
+	dead     *deadSet // instances that crashed / were shut down (read by process goroutines, written by the driver)
 	instCtx  map[int]context.Context
 	attempts map[string]int
 	mu       sync.Mutex
@@ -117,7 +117,7 @@ type sim struct {
 func newSim() *sim {
 	return &sim{hist: map[string][]*workflow.Record{}, runNum: map[string]int{}, nextRun: 1, nextOid: 1, cursors: map[string]int{}, nextTid: 1,
 		roles: map[string]*proc{}, procs: map[string]*proc{}, reqCh: make(chan *request, 1024), counts: map[string]int{},
-		dead: map[int]bool{}, instCtx: map[int]context.Context{}, attempts: map[string]int{}}
+		dead: &deadSet{m: map[int]bool{}}, instCtx: map[int]context.Context{}, attempts: map[string]int{}}
 }
 
 type instKey struct{}
@@ -129,7 +129,7 @@ func noCtx(kind string) bool { return kind == "AK" || kind == "CL" || kind == "S
 func (s *sim) decide(p *proc, kind string) int {
 	occ := s.counts[kind]
 	s.counts[kind] = occ + 1
-	if p != nil && s.dead[p.inst] {
+	if p != nil && s.dead.get(p.inst) {
 		return dCancel
 	}
 	if p != nil && !noCtx(kind) && (p.lease == nil || !p.lease.live) {
@@ -190,7 +190,7 @@ func (s *sim) loseLease(l *lease) {
 }
 
 func (s *sim) killInst(inst int) {
-	s.dead[inst] = true
+	s.dead.set(inst)
 	for _, p := range s.procList() {
 		if p.inst == inst && p.lease != nil {
 			s.loseLease(p.lease)
@@ -208,7 +208,7 @@ func (s *sim) enter(p *proc, kind string, deadline int64) int {
 		}
 		return s.decide(nil, kind)
 	}
-	if s.dead[p.inst] || p.gone {
+	if s.dead.get(p.inst) || p.gone {
 		return dCancel
 	}
 	req := &request{p: p, kind: kind, deadline: deadline, resume: make(chan int, 1)}
@@ -217,7 +217,7 @@ func (s *sim) enter(p *proc, kind string, deadline int64) int {
 }
 
 func (s *sim) emit(p *proc, tok string) {
-	if p != nil && (s.dead[p.inst] || p.gone) {
+	if p != nil && (s.dead.get(p.inst) || p.gone) {
 		return
 	}
 	s.trace = append(s.trace, tok)
@@ -718,7 +718,7 @@ func (rs simRoles) Await(ctx context.Context, role string) (context.Context, con
 		return ctx, func() {}, ctx.Err()
 	}
 	d := s.enter(p, "AW", 0)
-	if s.dead[inst] || p.gone || ctx.Err() != nil {
+	if s.dead.get(inst) || p.gone || ctx.Err() != nil {
 		return ctx, func() {}, context.Canceled
 	}
 	s.emit(p, fmt.Sprintf("AW:=%s:", dispRes(d)))
@@ -876,3 +876,15 @@ func connView(s *sim, ce *workflow.ConnectorEvent) string {
 	abs := new(big.Int).Abs(big.NewInt(ge.ID))
 	return fmt.Sprintf("%s.0.%d.0.D.%d.%d.?.%d", abs.String(), ge.ID, s.ns(ce.CreatedAt), s.ns(ce.CreatedAt), fidN(ce.ForeignID))
 }
+
+// deadSet: the crash flags. Process goroutines read them at every adapter call; the driver sets and clears them. A process
+// that is still unwinding when its instance is restarted (or, with a defective Stop, after Stop returned) must not race
+// with the driver on a plain map.
+type deadSet struct {
+	mu sync.RWMutex
+	m  map[int]bool
+}
+
+func (d *deadSet) get(i int) bool { d.mu.RLock(); defer d.mu.RUnlock(); return d.m[i] }
+func (d *deadSet) set(i int)      { d.mu.Lock(); d.m[i] = true; d.mu.Unlock() }
+func (d *deadSet) del(i int)      { d.mu.Lock(); delete(d.m, i); d.mu.Unlock() }
